@@ -39,10 +39,11 @@ ASSUMPTIONS = [
     'accuracy statement, taken literally: |gcirc - exact| <= 1e-6*|gcirc| from 1 micro-arcsecond (2.8e-10 deg) to 180 deg in all three '
     'conventions; the only absolute floor is 1e-13 arcsec (4.85e-19 rad for units=0), for exact zeros. "exact" is the great-circle '
     'distance of the points whose coordinates are exactly the doubles passed in',
-    'not generated below 1e-6 deg separation, because no evaluation in doubles of the degree/hour coordinates can reach 1e-6 relative '
-    'there: (a) a point at exactly +-90 deg (deg2rad(90) is 6.1e-17 rad short of pi/2: absolute error up to 2.5e-11 arcsec; near-pole '
-    'points 90 - 2^-k deg are used instead), (b) right ascensions differing by a full turn (sin of pi + x loses x below 1e-16 rad)',
-    'frame round trips / isometry are decided with tolerance 1e-6 rad (1e-6 relative on separations, floor 5e-8 rad): arcsin near '
+    'two input families fail the literal 1e-6 below ~1e-6 deg and are open known findings (generated on every run, fixed members first): '
+    '(a) a point at exactly +-90 deg in the degree/hour conventions (deg2rad(90) is 6.1e-17 rad short of pi/2: up to 2.5e-11 arcsec '
+    'absolute), (b) right ascensions a full turn apart (sin(pi + x) loses x below 1e-16 rad), all three conventions; the regular polar '
+    'class uses near-pole points 90 - 2^-k deg below 1e-6 deg and RA wraps only from 1e-6 deg on',
+    'frame round trips / isometry are decided with tolerance 2e-7 rad (1e-6 relative on separations, floor 5e-8 rad): arcsin near '
     '+-1 limits what doubles can return at the poles of either system',
     'node is the frame default (95 deg); radec_to_munu does not propagate a non-default node (outside the property)',
     'angles <-> vectors: open domain (polar angle at least 1e-4 deg from 0 and 180); azimuth compared modulo 360',
@@ -256,6 +257,20 @@ SMALL_SEP = 1e-6     # below this: no RA wrap by 360 deg, no point exactly at a 
 TOP = {0: math.pi, 1: 648000.0, 2: 648000.0}
 
 
+# fixed members of the two open-finding families: (class, units, [ra1, dec1, ra2, dec2])
+FAMILY_CASES = [
+    ('exact-pole', 2, [10.0, 90.0, 190.0, 90.0 - 2.0 ** -32]),
+    ('exact-pole', 1, [1.0, 90.0, 13.0, 90.0 - 2.0 ** -32]),
+    ('exact-pole', 2, [33.5, -90.0, 213.5, -90.0 + 2.0 ** -30]),
+    ('exact-pole', 1, [2.25, -90.0, 14.25, -90.0 + 2.0 ** -30]),
+    ('full-turn', 2, [10.3, 20.0, 10.3 + 360 + 2.0 ** -30, 20.0]),
+    ('full-turn', 1, [1.3, 20.0, 1.3 + 24 + 2.0 ** -34, 20.0]),
+    ('full-turn', 0, [1.1, 0.25, 1.1 + 2 * math.pi + 2.0 ** -38, 0.25]),
+]
+FAMILY_SIG = {'exact-pole': 'C18:gcirc:accuracy:exact-pole:degree-hour-conventions',
+              'full-turn': 'C18:gcirc:accuracy:ra-offset-full-turn'}
+
+
 def to_units(base, units):
     ra1, dec1, ra2, dec2 = base
     if units == 2:
@@ -294,6 +309,28 @@ def gen_gcirc(ctx):
                     cases.append({'kind': 'generic', 'cls': cls, 'units': units, 'pts': to_units(base, units),
                                   'base': bid, 'sep': sep})
                 bid += 1
+    # Two input families on which no double-precision evaluation of degree/hour (resp. full-turn) coordinates reaches 1e-6
+    # relative below ~1e-6 deg.  They are genuine shortfalls against the letter of the property (open known findings), so
+    # they are generated: first a fixed list (the same inputs for every seed, so the replay is deterministic), then random ones.
+    for cls, units, pts in FAMILY_CASES:
+        cases.append({'kind': 'generic', 'cls': cls, 'units': units, 'pts': list(pts), 'base': bid,
+                      'sep': float(hp_gcirc(units, *pts)) * (180 / math.pi if units == 0 else 1 / 3600.0)})
+        bid += 1
+    for _ in range(ctx.n(2, 10)):
+        sep = rng.choice([2.8e-10, 1e-9, 1e-8, 1e-7])
+        # a point at exactly +-90 deg, second point `sep` away at a very different right ascension
+        sg = rng.choice([1.0, -1.0])
+        base = [C.dyadic(rng, 0, 180, 4), sg * 90.0, C.dyadic(rng, 0, 180, 4) + 180.0, sg * (90.0 - sep)]
+        for units in (1, 2):
+            cases.append({'kind': 'generic', 'cls': 'exact-pole', 'units': units, 'pts': to_units(base, units), 'base': bid, 'sep': sep})
+        bid += 1
+        # right ascensions a full turn apart
+        ra, dec = C.dyadic(rng, 0, 360, 8) + 0.3, C.dyadic(rng, -80, 80, 8)
+        ra2, dec2 = destination(ra, dec, rng.uniform(0, 2 * math.pi), sep)
+        base = [ra, dec, ra2 + rng.choice([360.0, -360.0]), dec2]
+        for units in (0, 1, 2):
+            cases.append({'kind': 'generic', 'cls': 'full-turn', 'units': units, 'pts': to_units(base, units), 'base': bid, 'sep': sep})
+        bid += 1
     # coincident pairs, all conventions
     for _ in range(ctx.n(4, 30)):
         ra, dec = C.dyadic(rng, 0, 360, 10), rng.choice([C.dyadic(rng, -90, 90, 10), 90.0, -90.0, 0.0])
@@ -458,8 +495,11 @@ def check_gcirc(ctx, have_spec):
                 c = cases[i]
                 encl_fail += 1
                 ref = hp_gcirc(c['units'], *c['pts'])
-                if certified and c['units'] in (1, 2) and c['sep'] < SMALL_SEP:
-                    # one defect, both conventions: relative accuracy lost below ~1e-7 deg in the degree/hour conventions
+                if certified and c['cls'] in FAMILY_SIG and c['sep'] < SMALL_SEP:
+                    # the two documented families only; every other accuracy failure keeps its own signature
+                    sig = FAMILY_SIG[c['cls']]
+                elif certified and c['units'] in (1, 2) and c['sep'] < SMALL_SEP:
+                    # relative accuracy lost below ~1e-7 deg in the degree/hour conventions (fixed in /repo by 220340f)
                     sig = 'C18:gcirc:accuracy:small-separation:degree-hour-conventions'
                 else:
                     sig = 'C18:gcirc:enclosure:units=%d:%s' % (c['units'], 'property' if certified else 'unproved')
@@ -473,8 +513,8 @@ def check_gcirc(ctx, have_spec):
                     rep['certified'] = 'Coq/Interval proved |S(input) - gcirc| > tol'
                     rep['relative_error'] = float(abs(D(fwd[i]) - ref) / ref) if ref > 0 else None
                     ctx.violation(sig, 'gcirc differs from the exact great-circle distance by more than 1e-6 relative '
-                                  '(%r vs %s, relative error %.2e, units=%d, separation ~%g deg)'
-                                  % (fwd[i], str(ref)[:22], rep['relative_error'] or 0.0, c['units'], c['sep']), rep, True)
+                                  '(%r vs %s, relative error %.2e, units=%d, separation ~%.3g deg)'
+                                  % (fwd[i], '%.15e' % ref, rep['relative_error'] or 0.0, c['units'], c['sep']), rep, True)
                 else:
                     rep['kind'] = 'broken-correspondence'
                     rep['item'] = 'enclosure |gcirc_S - impl| <= tol could be neither proved nor refuted'
@@ -598,7 +638,7 @@ def check_munu(ctx, have_spec):
             vout.append(c)
             rt = chord_sep(a, c)
             worst_rt = max(worst_rt, rt)
-            if rt > 1e-6:
+            if rt > 2e-7:
                 viol('C18:munu:%s:roundtrip' % kind,
                      'round trip does not return the starting point: stripe %d, (%r, %r) -> (%r, %r) -> (%r, %r), off by %.3g rad'
                      % (st, lon[k], lat[k], *vals, rt),
@@ -716,6 +756,11 @@ def check_angles(ctx, have_spec):
         if job['op'] == 'angles':
             if not r['input_unchanged']:
                 viol('C18:angles:input-modified', 'angles_to_x modified its input', {'kind': 'failing-input', 'input': job['pts'][:2]}, True)
+            if not r.get('x_unchanged', True) or not r.get('second_call_same', True):
+                viol('C18:angles:x_to_angles-modifies-input',
+                     'x_to_angles overwrote the vectors it was given (latitude=%s): %r became %r' % (lat, r['x'][:2], r.get('x_after')),
+                     {'kind': 'failing-input', 'input': {'latitude': lat, 'x': r['x'][:2]}, 'x_after_call': r.get('x_after'),
+                      'second_call_same': r.get('second_call_same')}, True)
             for p, x, b in zip(job['pts'], r['x'], r['back']):
                 n += 1
                 rep = {'kind': 'failing-input', 'input': {'latitude': lat, 'phi_theta': p}, 'x': x, 'back': b}
@@ -730,6 +775,13 @@ def check_angles(ctx, have_spec):
                 if sum(1 for e in encl if e[0] == lat) < ctx.n(8, 60) and rng.random() < 0.2:
                     encl.append((lat, p[0], p[1], x))
         else:
+            if not r.get('x_unchanged', True) or not r.get('second_call_same', True) or not r.get('angles_unchanged', True):
+                viol('C18:angles:x_to_angles-modifies-input' if not r.get('x_unchanged', True) or not r.get('second_call_same', True)
+                     else 'C18:angles:input-modified',
+                     'x_to_angles/angles_to_x overwrote their argument (latitude=%s): vectors %r became %r; second call same: %s'
+                     % (lat, job['x'][:2], r.get('x_after'), r.get('second_call_same')),
+                     {'kind': 'failing-input', 'input': {'latitude': lat, 'x': job['x'][:2]}, 'x_after_call': r.get('x_after'),
+                      'second_call_same': r.get('second_call_same'), 'angles_unchanged': r.get('angles_unchanged')}, True)
             for x, a, b in zip(job['x'], r['a'], r['back']):
                 n += 1
                 if not all(isnum(t) for t in list(a) + list(b)) or max(abs(s - t) for s, t in zip(x, b)) > 1e-9:
@@ -778,7 +830,7 @@ def correspond(ctx, proof_ok=True):
         'gcirc_cases': len(g['cases']),
         'gcirc_nan_scan_pairs': g['scanned'],
         'gcirc_max_rel_err': {k: float('%.3g' % v) for k, v in sorted(g['stats'].items())},
-        'gcirc_case_kinds': {k: sum(1 for c in g['cases'] if c['cls'] == k) for k in ('generic', 'polar', 'equator', 'coincident', 'antipodal')},
+        'gcirc_case_kinds': {k: sum(1 for c in g['cases'] if c['cls'] == k) for k in ('generic', 'polar', 'equator', 'coincident', 'antipodal', 'exact-pole', 'full-turn')},
         'munu_stripes': m['stripes'], 'munu_points': m['points'],
         'munu_worst_roundtrip_rad': m['worst_roundtrip_rad'], 'munu_worst_isometry_rad': m['worst_isometry_rad'],
         'angles_points': a['points'],
